@@ -1,10 +1,12 @@
-(* C03: the code-level theorems.  The observables of Codec/ObsC03.v (walkers over the shipped C / C++ / Python primitive models,
-   with the epilogue assertions) are PROVED equal to the wire specification - via the instance refinement theorems
-   InstancesC.c_walk_*_refines, InstancesCpp.cpp_walk_*_refines, InstancesPy(Ser).py_walk_*_refines - and cross-target agreement,
+(* C03: the code-level theorems.  The observables of Codec/ObsC03.v (TARGET-SHAPED walkers over the shipped C / C++ / Python primitive
+   models, with the build gate and the epilogue assertions) are PROVED equal to the wire specification - via the refinement theorems
+   InstancesX.c_walk_ser_x_refines, InstancesXDes.c_walk_des_x_refines (C templates incl. the little-endian memmove and bulk-copy paths),
+   CppWalkerInst.cppw_walk_{ser,des}_refines (C++ templates), InstancesPySer.py_walk_ser_refines, PyDesWalkerInst.pyd_walk_des_refines_sa
+   (Python templates) - and cross-target agreement,
    option independence, round trip, re-serialization and des-ser-des stability are derived from that.  Nothing is by reflexivity on
    a definition that ignores its arguments: every equality below goes through a refinement theorem and its side conditions. *)
 From Verif Require Import Wire WireThm WireThmRt WireThmExt WireThmValid TargetsC03 TargetPreThm WireThmC03.
-From Verif Require Import Walker WalkerBound RefineSerBits PyWalker InstancesC InstancesCpp InstancesPy InstancesPySer ObsC03.
+From Verif Require Import Walker WalkerBound RefineSerBits ObsC03.
 From Coq Require Import Lia ZifyBool ZifyNat ZifyN.
 Local Open Scope nat_scope.
 Ltac Zify.zify_post_hook ::= Z.div_mod_to_equations.
@@ -30,20 +32,23 @@ Proof.
 Qed.
 
 (* ---------- each observable IS the specification (applied to the target's pre-adjusted value) ---------- *)
-Theorem obs_ser_c : forall o u fs ext v buf cap, wf_ty (TComp u fs ext) = true -> buf_ok buf cap ->
-  storage_ok (TComp u fs ext) v = true ->
+Lemma gate_ok {A} tg o t (r : res A) : buildable tg o t = true -> gate tg o t r = r.
+Proof. intros H. unfold gate. rewrite H. reflexivity. Qed.
+
+Theorem obs_ser_c : forall o u fs ext v buf cap, wf_ty (TComp u fs ext) = true -> buildable TgC o (TComp u fs ext) = true ->
+  buf_ok buf cap -> storage_ok (TComp u fs ext) v = true ->
   obs_ser TgC o (TComp u fs ext) v buf cap = spec_ser TgC (TComp u fs ext) v cap.
 Proof.
-  intros o u fs ext v buf cap Hwf [Hl HB] Hst. unfold obs_ser, spec_ser, target_pre.
-  rewrite (c_walk_ser_refines (opt_little o) u fs ext v buf cap Hwf Hl HB Hst). apply ser_asserts_spec; [exact Hwf | reflexivity].
+  intros o u fs ext v buf cap Hwf Hb [Hl HB] Hst. unfold obs_ser, spec_ser, target_pre. rewrite gate_ok by exact Hb.
+  rewrite (c_walk_ser_x_refines (is_little o) u fs ext v buf cap Hwf Hl HB Hst). apply ser_asserts_spec; [exact Hwf | reflexivity].
 Qed.
 
-Theorem obs_ser_cpp : forall o u fs ext v buf cap, wf_ty (TComp u fs ext) = true -> buf_ok buf cap ->
-  storage_ok (TComp u fs ext) v = true ->
+Theorem obs_ser_cpp : forall o u fs ext v buf cap, wf_ty (TComp u fs ext) = true -> buildable TgCpp o (TComp u fs ext) = true ->
+  buf_ok buf cap -> storage_ok (TComp u fs ext) v = true ->
   obs_ser TgCpp o (TComp u fs ext) v buf cap = spec_ser TgCpp (TComp u fs ext) v cap.
 Proof.
-  intros o u fs ext v buf cap Hwf [Hl HB] Hst. unfold obs_ser, spec_ser, target_pre.
-  rewrite (cpp_walk_ser_refines (opt_setzeros o) u fs ext v buf cap Hwf Hl HB Hst). apply ser_asserts_spec; [exact Hwf | reflexivity].
+  intros o u fs ext v buf cap Hwf Hb [Hl HB] Hst. unfold obs_ser, spec_ser, target_pre. rewrite gate_ok by exact Hb.
+  rewrite (cppw_walk_ser_refines u fs ext v buf cap Hwf Hl HB Hst). apply ser_asserts_spec; [exact Hwf | reflexivity].
 Qed.
 
 Theorem obs_ser_py : forall o u fs ext v buf cap, wf_ty (TComp u fs ext) = true -> bmax (TComp u fs ext) <= 8 * cap ->
@@ -54,35 +59,42 @@ Proof.
 Qed.
 
 (* one statement for the three: the side conditions each target needs *)
-Definition ser_side (tg : target) (t : ty) (v : val) (buf : list bool) (cap : nat) : Prop :=
+Definition ser_side (tg : target) (o : options) (t : ty) (v : val) (buf : list bool) (cap : nat) : Prop :=
   match tg with
   | TgPy => bmax t <= 8 * cap
-  | _ => buf_ok buf cap /\ storage_ok t v = true
+  | _ => buildable tg o t = true /\ buf_ok buf cap /\ storage_ok t v = true
   end.
 
 Theorem obs_ser_is_spec : forall tg o u fs ext v buf cap, wf_ty (TComp u fs ext) = true ->
-  ser_side tg (TComp u fs ext) v buf cap ->
+  ser_side tg o (TComp u fs ext) v buf cap ->
   obs_ser tg o (TComp u fs ext) v buf cap = spec_ser tg (TComp u fs ext) v cap.
 Proof.
   intros tg o u fs ext v buf cap Hwf Hs. destruct tg; cbn [ser_side] in Hs.
-  - destruct Hs. apply obs_ser_c; assumption.
-  - destruct Hs. apply obs_ser_cpp; assumption.
+  - destruct Hs as (? & ? & ?). apply obs_ser_c; assumption.
+  - destruct Hs as (? & ? & ?). apply obs_ser_cpp; assumption.
   - apply obs_ser_py; assumption.
 Qed.
 
-Theorem obs_des_is_spec : forall tg o t bits, wf_ty t = true -> input_ok t bits -> obs_des tg o t bits = des_spec t bits.
+Lemma with_size_spec tg t bits : tg <> TgPy -> with_size (des_spec t bits) = spec_des tg t bits.
+Proof. intros H. unfold with_size, spec_des. destruct (des_spec t bits) as [[v c]|e]; [|reflexivity]. destruct tg; try contradiction; reflexivity. Qed.
+
+Theorem obs_des_is_spec : forall tg o t bits, wf_ty t = true -> buildable tg o t = true -> input_ok t bits ->
+  obs_des tg o t bits = spec_des tg t bits.
 Proof.
-  intros tg o t bits Hwf [Hm HB]. destruct tg; unfold obs_des.
-  - rewrite (c_walk_des_refines (opt_little o) t bits Hwf Hm HB). apply des_asserts_spec.
-  - rewrite (cpp_walk_des_refines (opt_setzeros o) t bits Hwf Hm HB). apply des_asserts_spec.
-  - rewrite (py_walk_des_refines t bits Hwf Hm). apply des_asserts_spec.
+  intros tg o t bits Hwf Hb [Hm HB]. destruct tg; unfold obs_des.
+  - rewrite gate_ok by exact Hb. rewrite (c_walk_des_x_refines (is_little o) t bits Hwf Hm HB), des_asserts_spec.
+    apply with_size_spec. discriminate.
+  - rewrite gate_ok by exact Hb. rewrite (cppw_walk_des_refines t bits Hwf Hm ltac:(lia)), des_asserts_spec.
+    apply with_size_spec. discriminate.
+  - rewrite (pyd_walk_des_refines_sa sa_dyn t bits sa_dyn_sound Hwf Hm). unfold no_size, res_val, spec_des.
+    destruct (des_spec t bits) as [[v c]|e]; reflexivity.
 Qed.
 
 (* ---------- cross-target and cross-option agreement ---------- *)
 (* any two targets, any two option sets, any two initial buffer contents: same bytes / same error, whenever no float16 field holds
    an exact tie *)
 Theorem cross_target_ser : forall tg1 tg2 o1 o2 u fs ext v buf1 buf2 cap, wf_ty (TComp u fs ext) = true ->
-  ser_side tg1 (TComp u fs ext) v buf1 cap -> ser_side tg2 (TComp u fs ext) v buf2 cap ->
+  ser_side tg1 o1 (TComp u fs ext) v buf1 cap -> ser_side tg2 o2 (TComp u fs ext) v buf2 cap ->
   no_f16_tie (TComp u fs ext) v = true ->
   obs_ser tg1 o1 (TComp u fs ext) v buf1 cap = obs_ser tg2 o2 (TComp u fs ext) v buf2 cap.
 Proof.
@@ -93,28 +105,46 @@ Qed.
 
 (* C and C++ agree on every value, ties included (they share the float16 pack function), under every option set *)
 Theorem cross_target_ser_c_family : forall tg1 tg2 o1 o2 u fs ext v buf1 buf2 cap, tg1 <> TgPy -> tg2 <> TgPy ->
-  wf_ty (TComp u fs ext) = true -> buf_ok buf1 cap -> buf_ok buf2 cap -> storage_ok (TComp u fs ext) v = true ->
+  wf_ty (TComp u fs ext) = true -> ser_side tg1 o1 (TComp u fs ext) v buf1 cap -> ser_side tg2 o2 (TComp u fs ext) v buf2 cap ->
   obs_ser tg1 o1 (TComp u fs ext) v buf1 cap = obs_ser tg2 o2 (TComp u fs ext) v buf2 cap.
 Proof.
-  intros tg1 tg2 o1 o2 u fs ext v buf1 buf2 cap N1 N2 Hwf B1 B2 Hst.
-  assert (S1 : ser_side tg1 (TComp u fs ext) v buf1 cap) by (destruct tg1; cbn [ser_side]; [split; assumption | split; assumption | contradiction]).
-  assert (S2 : ser_side tg2 (TComp u fs ext) v buf2 cap) by (destruct tg2; cbn [ser_side]; [split; assumption | split; assumption | contradiction]).
+  intros tg1 tg2 o1 o2 u fs ext v buf1 buf2 cap N1 N2 Hwf S1 S2.
   rewrite (obs_ser_is_spec tg1 o1 u fs ext v buf1 cap Hwf S1), (obs_ser_is_spec tg2 o2 u fs ext v buf2 cap Hwf S2).
   destruct tg1, tg2; try contradiction; reflexivity.
 Qed.
 
-(* the option set (endianness rendering, setZeros vs setUxx, assertions) and the initial buffer content are unobservable *)
+(* the option set (target_endianness: the memmove / bulk-copy template paths and the support rendering; enable_serialization_asserts;
+   omit_float_serialization_support wherever the program exists) and the initial buffer content are unobservable *)
 Theorem option_indep_ser : forall tg o1 o2 u fs ext v buf1 buf2 cap, wf_ty (TComp u fs ext) = true ->
-  ser_side tg (TComp u fs ext) v buf1 cap -> ser_side tg (TComp u fs ext) v buf2 cap ->
+  ser_side tg o1 (TComp u fs ext) v buf1 cap -> ser_side tg o2 (TComp u fs ext) v buf2 cap ->
   obs_ser tg o1 (TComp u fs ext) v buf1 cap = obs_ser tg o2 (TComp u fs ext) v buf2 cap.
 Proof.
   intros tg o1 o2 u fs ext v buf1 buf2 cap Hwf H1 H2.
   rewrite (obs_ser_is_spec tg o1 u fs ext v buf1 cap Hwf H1), (obs_ser_is_spec tg o2 u fs ext v buf2 cap Hwf H2). reflexivity.
 Qed.
 
-Theorem cross_target_des : forall tg1 tg2 o1 o2 t bits, wf_ty t = true -> input_ok t bits ->
-  obs_des tg1 o1 t bits = obs_des tg2 o2 t bits.
+(* decoded VALUES agree across all targets; C and C++ also agree on the consumed size (Python does not report one) *)
+Theorem cross_target_des : forall tg1 tg2 o1 o2 t bits, wf_ty t = true -> buildable tg1 o1 t = true -> buildable tg2 o2 t = true ->
+  input_ok t bits -> dobs_val (obs_des tg1 o1 t bits) = dobs_val (obs_des tg2 o2 t bits).
+Proof.
+  intros tg1 tg2 o1 o2 t bits Hwf B1 B2 Hin. rewrite !obs_des_is_spec by assumption. unfold spec_des.
+  destruct (des_spec t bits) as [[v c]|e]; reflexivity.
+Qed.
+
+Theorem cross_target_des_c_family : forall tg1 tg2 o1 o2 t bits, tg1 <> TgPy -> tg2 <> TgPy -> wf_ty t = true ->
+  buildable tg1 o1 t = true -> buildable tg2 o2 t = true -> input_ok t bits -> obs_des tg1 o1 t bits = obs_des tg2 o2 t bits.
+Proof.
+  intros tg1 tg2 o1 o2 t bits N1 N2 Hwf B1 B2 Hin. rewrite !obs_des_is_spec by assumption.
+  destruct tg1, tg2; try contradiction; reflexivity.
+Qed.
+
+Theorem option_indep_des : forall tg o1 o2 t bits, wf_ty t = true -> buildable tg o1 t = true -> buildable tg o2 t = true ->
+  input_ok t bits -> obs_des tg o1 t bits = obs_des tg o2 t bits.
 Proof. intros. rewrite !obs_des_is_spec by assumption. reflexivity. Qed.
+
+(* omit_float_serialization_support: a float-free type is buildable under every option set *)
+Theorem float_free_buildable : forall tg o t, uses_float t = false -> buildable tg o t = true.
+Proof. intros tg o t H. unfold buildable. rewrite H, andb_false_r. destruct tg; reflexivity. Qed.
 
 (* the full statement "all three targets emit the same bytes" is false of the models of the shipped code: F-F16-TIE *)
 Theorem obs_f16_tie_refuted :
@@ -181,28 +211,31 @@ Proof.
 Qed.
 
 Theorem obs_roundtrip : forall tg tg' o o' u fs ext v buf cap b r, wf_ty (TComp u fs ext) = true ->
-  ser_side tg (TComp u fs ext) v buf cap -> obs_ser tg o (TComp u fs ext) v buf cap = Ok b ->
-  input_ok (TComp u fs ext) (b ++ r) ->
-  obs_des tg' o' (TComp u fs ext) (b ++ r) = Ok (cast_val (TComp u fs ext) (target_pre tg (TComp u fs ext) v), length b / 8).
+  ser_side tg o (TComp u fs ext) v buf cap -> obs_ser tg o (TComp u fs ext) v buf cap = Ok b ->
+  buildable tg' o' (TComp u fs ext) = true -> input_ok (TComp u fs ext) (b ++ r) ->
+  obs_des tg' o' (TComp u fs ext) (b ++ r) =
+    Ok (cast_val (TComp u fs ext) (target_pre tg (TComp u fs ext) v), consumed_of tg' (length b / 8)).
 Proof.
-  intros tg tg' o o' u fs ext v buf cap b r Hwf Hs Hser Hin.
+  intros tg tg' o o' u fs ext v buf cap b r Hwf Hs Hser Hb Hin.
   rewrite (obs_ser_is_spec tg o u fs ext v buf cap Hwf Hs) in Hser.
-  rewrite (obs_des_is_spec tg' o' _ _ Hwf Hin). exact (spec_roundtrip tg _ v cap b r Hwf eq_refl Hser).
+  rewrite (obs_des_is_spec tg' o' _ _ Hwf Hb Hin). unfold spec_des.
+  rewrite (spec_roundtrip tg _ v cap b r Hwf eq_refl Hser). reflexivity.
 Qed.
 
 (* serializing the deserialized value again - same target, any option sets, any buffers - yields the identical bytes *)
 Theorem obs_reser : forall tg o o' o'' u fs ext v buf buf' cap b v' k, wf_ty (TComp u fs ext) = true ->
-  ser_side tg (TComp u fs ext) v buf cap -> obs_ser tg o (TComp u fs ext) v buf cap = Ok b ->
-  input_ok (TComp u fs ext) b -> obs_des tg o' (TComp u fs ext) b = Ok (v', k) ->
-  (tg <> TgPy -> buf_ok buf' cap) ->
+  ser_side tg o (TComp u fs ext) v buf cap -> obs_ser tg o (TComp u fs ext) v buf cap = Ok b ->
+  buildable tg o' (TComp u fs ext) = true -> input_ok (TComp u fs ext) b -> obs_des tg o' (TComp u fs ext) b = Ok (v', k) ->
+  (tg <> TgPy -> buildable tg o'' (TComp u fs ext) = true /\ buf_ok buf' cap) ->
   obs_ser tg o'' (TComp u fs ext) v' buf' cap = Ok b.
 Proof.
-  intros tg o o' o'' u fs ext v buf buf' cap b v' k Hwf Hs Hser Hin Hdes Hb'.
-  pose proof (obs_roundtrip tg tg o o' u fs ext v buf cap b [] Hwf Hs Hser) as Hr. rewrite app_nil_r in Hr.
+  intros tg o o' o'' u fs ext v buf buf' cap b v' k Hwf Hs Hser Hbd Hin Hdes Hb'.
+  pose proof (obs_roundtrip tg tg o o' u fs ext v buf cap b [] Hwf Hs Hser Hbd) as Hr. rewrite app_nil_r in Hr.
   rewrite (Hr Hin) in Hdes. apply Ok_inj in Hdes. apply pair_equal_spec in Hdes. destruct Hdes as [<- _].
   rewrite (obs_ser_is_spec tg o u fs ext v buf cap Hwf Hs) in Hser.
-  assert (Hs' : ser_side tg (TComp u fs ext) (cast_val (TComp u fs ext) (target_pre tg (TComp u fs ext) v)) buf' cap).
-  { destruct tg; cbn [ser_side] in *; try exact Hs; (split; [apply Hb'; discriminate | apply cast_storage_ok; exact Hwf]). }
+  assert (Hs' : ser_side tg o'' (TComp u fs ext) (cast_val (TComp u fs ext) (target_pre tg (TComp u fs ext) v)) buf' cap).
+  { destruct tg; cbn [ser_side] in *; try exact Hs;
+      (destruct Hb' as [B1 B2]; [discriminate|]; split; [exact B1 | split; [exact B2 | apply cast_storage_ok; exact Hwf]]). }
   rewrite (obs_ser_is_spec tg o'' u fs ext _ buf' cap Hwf Hs').
   exact (spec_reser tg (TComp u fs ext) v cap b Hwf eq_refl Hser).
 Qed.
@@ -210,35 +243,45 @@ Qed.
 (* des . ser . des = des through the generated code, at the VALUE level, float16 NaN payload canonicalisation excluded:
    deserialize any byte string with any target, serialize the value with any target, deserialize with any target *)
 Theorem obs_des_ser_des : forall tg1 tg2 tg3 o1 o2 o3 u fs ext bits v k buf cap b, wf_ty (TComp u fs ext) = true ->
-  input_ok (TComp u fs ext) bits -> obs_des tg1 o1 (TComp u fs ext) bits = Ok (v, k) ->
+  buildable tg1 o1 (TComp u fs ext) = true -> input_ok (TComp u fs ext) bits -> obs_des tg1 o1 (TComp u fs ext) bits = Ok (v, k) ->
   f16_nans_canonical (TComp u fs ext) v = true ->
-  (tg2 <> TgPy -> buf_ok buf cap) -> (tg2 = TgPy -> bmax (TComp u fs ext) <= 8 * cap) ->
-  obs_ser tg2 o2 (TComp u fs ext) v buf cap = Ok b -> input_ok (TComp u fs ext) b ->
-  obs_des tg3 o3 (TComp u fs ext) b = Ok (v, length b / 8).
+  (tg2 <> TgPy -> buildable tg2 o2 (TComp u fs ext) = true /\ buf_ok buf cap) -> (tg2 = TgPy -> bmax (TComp u fs ext) <= 8 * cap) ->
+  obs_ser tg2 o2 (TComp u fs ext) v buf cap = Ok b ->
+  buildable tg3 o3 (TComp u fs ext) = true -> input_ok (TComp u fs ext) b ->
+  obs_des tg3 o3 (TComp u fs ext) b = Ok (v, consumed_of tg3 (length b / 8)).
 Proof.
-  intros tg1 tg2 tg3 o1 o2 o3 u fs ext bits v k buf cap b Hwf Hin Hd Hn Hb Hc Hser Hinb.
-  rewrite (obs_des_is_spec tg1 o1 (TComp u fs ext) bits Hwf Hin) in Hd.
+  intros tg1 tg2 tg3 o1 o2 o3 u fs ext bits v k buf cap b Hwf Hb1 Hin Hd Hn Hb Hc Hser Hb3 Hinb.
+  rewrite (obs_des_is_spec tg1 o1 (TComp u fs ext) bits Hwf Hb1 Hin) in Hd.
+  assert (Hds : exists c, des_spec (TComp u fs ext) bits = Ok (v, c)).
+  { unfold spec_des in Hd. destruct (des_spec (TComp u fs ext) bits) as [[v0 c]|e]; [|discriminate].
+    apply Ok_inj in Hd. apply pair_equal_spec in Hd. destruct Hd as [<- _]. exists c. reflexivity. }
+  destruct Hds as [c Hds].
   assert (Hdec : exists n, dec_body (TComp u fs ext) bits = Ok (v, n)).
-  { unfold des_spec in Hd. destruct (dec_body (TComp u fs ext) bits) as [[v0 n]|] eqn:E; cbn [bind] in Hd; [|discriminate].
-    apply Ok_inj in Hd. apply pair_equal_spec in Hd. destruct Hd as [<- _]. exists n. reflexivity. }
+  { unfold des_spec in Hds. destruct (dec_body (TComp u fs ext) bits) as [[v1 n]|] eqn:E1; cbn [bind] in Hds; [|discriminate].
+    apply Ok_inj in Hds. apply pair_equal_spec in Hds. destruct Hds as [<- _]. exists n. reflexivity. }
   destruct Hdec as [n Hdec].
   pose proof (dec_cast_fix (TComp u fs ext) bits v n Hwf Hdec Hn) as Hfix.
-  assert (Hs : ser_side tg2 (TComp u fs ext) v buf cap).
+  assert (Hs : ser_side tg2 o2 (TComp u fs ext) v buf cap).
   { destruct tg2; cbn [ser_side]; try (apply Hc; reflexivity);
-      (split; [apply Hb; discriminate | rewrite <- Hfix; apply cast_storage_ok; exact Hwf]). }
+      (destruct Hb as [B1 B2]; [discriminate|]; split; [exact B1 | split; [exact B2 | rewrite <- Hfix; apply cast_storage_ok; exact Hwf]]). }
   rewrite (obs_ser_is_spec tg2 o2 u fs ext v buf cap Hwf Hs) in Hser.
   assert (Hpre : target_pre tg2 (TComp u fs ext) v = v).
   { destruct tg2; try reflexivity. apply py_pre_id. exact (dec_no_tie (TComp u fs ext) bits v n Hwf Hdec Hn). }
   unfold spec_ser in Hser. rewrite Hpre in Hser.
-  rewrite (obs_des_is_spec tg3 o3 (TComp u fs ext) b Hwf Hinb).
-  exact (des_ser_des_value_partial (TComp u fs ext) bits v k cap b Hwf eq_refl Hd Hn Hser).
+  rewrite (obs_des_is_spec tg3 o3 (TComp u fs ext) b Hwf Hb3 Hinb). unfold spec_des.
+  rewrite (des_ser_des_value_partial (TComp u fs ext) bits v c cap b Hwf eq_refl Hds Hn Hser). reflexivity.
 Qed.
 
-(* non-vacuity of the side conditions and of the option record: the observables really run the shipped primitive models *)
+(* non-vacuity: the observables really run the target-shaped walkers over the shipped primitive models; a truncated uint13 holding
+   0xFFFF at a byte-aligned offset takes the little-endian memmove path (16 storage bits stored, the surplus overwritten by the next
+   field), an array of uint16 the bulk nunavutCopyBits path - the same bytes as the portable rendering and as C++ / Python *)
 Example obs_example_options :
-  let t := TComp false [TPrim (PU 3 true); TPrim (PVoid 7); TPrim (PS 13 true); TPrim (PF 16 false)] None in
-  let v := VStruct [VInt 9; VVoid; VInt (-5000); VFlt 1065357313%N] in
-  obs_ser TgC (mk_options true false true) t v (repeat true 40) 5 = obs_ser TgCpp (mk_options false true false) t v (repeat false 40) 5 /\
-  obs_ser TgCpp (mk_options false false true) t v (repeat true 40) 5 = obs_ser TgPy default_options t v [] 5 /\
-  obs_ser TgC default_options t v (repeat true 40) 5 = ser_spec t v 5.
+  let t := TComp false [TPrim (PU 13 false); TPrim (PU 3 true); TFix (TPrim (PU 16 true)) 2; TPrim (PVoid 7); TPrim (PS 13 true);
+                        TPrim (PF 16 false)] None in
+  let v := VStruct [VInt 65535; VInt 9; VArr [VInt 258; VInt 772]; VVoid; VInt (-5000); VFlt 1065357313%N] in
+  obs_ser TgC (mk_options EndLittle false true) t v (repeat true 88) 11 = obs_ser TgC (mk_options EndBig false false) t v (repeat false 88) 11 /\
+  obs_ser TgC (mk_options EndLittle false true) t v (repeat true 88) 11 = obs_ser TgCpp (mk_options EndAny false true) t v (repeat true 88) 11 /\
+  obs_ser TgCpp default_options t v (repeat true 88) 11 = obs_ser TgPy default_options t v [] 11 /\
+  obs_ser TgC (mk_options EndLittle false false) t v (repeat true 88) 11 = ser_spec t v 11 /\
+  obs_ser TgC (mk_options EndAny true false) t v (repeat true 88) 11 = Err EShape.
 Proof. vm_compute. repeat split; reflexivity. Qed.
